@@ -257,7 +257,7 @@ def gen_history(r, n, length):
     return hist
 
 
-def exhaustive_histories(n, length):
+def exhaustive_histories(n, length, yields=(0, 1, 2)):
     """all histories of `length` ops over n resources with fresh versions, full dependency sets
     on lower ranks, plain deletes, and 0..2 turns after each op"""
     alphabet = []
@@ -268,7 +268,7 @@ def exhaustive_histories(n, length):
                 alphabet.append(("offer", i, list(deps)))
         alphabet.append(("delete", i, None))
     for ops in itertools.product(alphabet, repeat=length):
-        for ys in itertools.product([0, 1, 2], repeat=length):
+        for ys in itertools.product(list(yields), repeat=length):
             used = {i: 0 for i in range(n)}
             hist = []
             for (kind, i, deps), y in zip(ops, ys):
@@ -386,15 +386,16 @@ def run(tier: str) -> int:
 
     exhaustive = False
     if tier == "thorough":
-        for L in (1, 2, 3):
-            for hist in exhaustive_histories(3, L):
+        for L in (1, 2, 3, 4):
+            for hist in exhaustive_histories(3, L, yields=(0, 1, 2) if L < 4 else (0, 1)):
                 check_history(ck, batch, 3, hist)
                 if len(batch) >= 500:
                     flush(ck, drv, batch)
         flush(ck, drv, batch)
         exhaustive = True
         ck.cov["exhaustive_box"] = "all histories of <=3 operations over 3 resources (every dependency set on lower " \
-                                   "ranks, plain deletes) x turn placements {0,1,2} after each operation"
+                                   "ranks, plain deletes) x turn placements {0,1,2} after each operation, and all " \
+                                   "histories of 4 operations x turn placements {0,1}"
         ck.leanchecker()
     ck.cov["exhaustive"] = exhaustive
     def widen(ck2):
